@@ -178,6 +178,24 @@ func cmdCheck(argv []string) int {
 				viols = append(viols, violation{reason: "binding: no lemma named " + ln, noIn: true})
 			}
 		}
+		// lemmas the verified functions relied on are discharged in the same run
+		done := map[*Lemma]bool{}
+		for changed := true; changed; {
+			changed = false
+			for _, l := range e.contracts.Lemmas {
+				if e.usedLemmas[l] && !done[l] {
+					done[l] = true
+					changed = true
+					already := false
+					for _, ln := range lemmas {
+						already = already || l.Pkg+".lemma:"+l.Name == ln
+					}
+					if !already {
+						vcs = append(vcs, e.verifyLemma(l))
+					}
+				}
+			}
+		}
 	}
 	dir, _ := os.MkdirTemp("", "gocv-"+id+"-")
 	defer os.RemoveAll(dir)
